@@ -1,6 +1,6 @@
 (* C12 - tie (T): the model's list of variants is what the code of /repo computes. *)
 From Coq Require Import List Arith Bool.
-From Verif Require Import Discr DiscrSpec DiscrProofs PyK_discr K12Defs K12Proofs.
+From Verif Require Import Discr DiscrSpec DiscrProofs PyK_discr K12Defs K12Proofs DiscrEmit DiscrEmitProofs.
 From VerifGen Require Import K12.
 Import ListNotations.
 
@@ -39,6 +39,41 @@ Theorem C12_code_exceptions :
   /\ variant_call_guarded = false.
 Proof. vm_compute. repeat split. Qed.
 Print Assumptions C12_code_exceptions.
+
+(* (T) THE EMITTED DISPATCHER.  emit_lookup nailed tagger = the statements DiscriminatedUnionUnpackerBuilder._add_body and
+   _add_register_variant_tags emit for the guarded registry lookup, its `except (KeyError, AttributeError)` handler (refill
+   loop over the variants, retry) and the final call, translated from /repo on this run (one constructor per emitted line,
+   control structure from the source).  Run by the interpreter DiscrEmit.exec_block on the dispatcher's registry - the
+   variants' "has its own method" read off the model state, any tagger whose result (list or bare value) flattens to the
+   model's tags - and committed to the state, they ARE the model's field-mode clause Discr.field_body: for every
+   continuation [enter], registry key, site, tag and state. *)
+Theorem C12_code_dispatcher : forall nailed enter top codec k s t x tr,
+  (forall v, flat (tr v) = match assoc (s_tgid s) (c_ttags (nth v (classes x) dummy_cls)) with Some l => l | None => [] end) ->
+  option_map (commit_lookup enter top codec k x)
+             (result_of (exec_block (classes x) s t (variants (classes x) s) (has_method codec x) tr
+                                    (emit_lookup nailed (s_tagger s)) (env0 (get_reg k (regs x)))))
+  = Some (field_body enter top codec k s t x).
+Proof. exact code_field_body_is_emitted. Qed.
+Print Assumptions C12_code_dispatcher.
+
+(* non-vacuity: the emitted program is not trivial and the runs differ as the model says: a stale hit whose class lacks
+   its own method refills (class 2 wins, classes 1 and 2 rebuilt, class 0 without the key skipped by `continue`), with
+   the method it is returned as is; a bare tagger result registers one tag, a list every element *)
+Example C12_code_dispatcher_nonvacuous :
+  let cl := [Cls [] [] [(0, [9])] [] false; Cls [0] [(0, 1)] [(0, [4; 5])] [] false; Cls [0] [(0, 1)] [] [] false] in
+  let s := Site [0] true true true false false false 0 0 false in
+  let st_ := Site [0] true true true true false false 0 0 false in
+  let tr := fun v => match v with 0 => TScalar 9 | 1 => TList [4; 5] | _ => TList [] end in
+  length (emit_lookup true false) = 2
+  /\ result_of (exec_block cl s 1 (variants cl s) (fun _ => false) tr (emit_lookup true false) (env0 [(1, 1)]))
+     = Some (true, Some 2, [(1, 2); (1, 1); (1, 1)], [1; 2])
+  /\ result_of (exec_block cl s 1 (variants cl s) (fun _ => true) tr (emit_lookup true false) (env0 [(1, 1)]))
+     = Some (false, Some 1, [(1, 1)], [])
+  /\ result_of (exec_block cl s 7 (variants cl s) (fun _ => true) tr (emit_lookup false false) (env0 [(1, 1)]))
+     = Some (true, None, [(1, 2); (1, 1); (1, 1)], [1; 2])
+  /\ result_of (exec_block cl st_ 9 (variants cl st_) (fun _ => false) tr (emit_lookup true true) (env0 []))
+     = Some (true, Some 0, [(9, 0); (5, 1); (4, 1)], [1; 2; 0]).
+Proof. vm_compute. repeat split. Qed.
 
 (* non-vacuity: a three-level forest with a diamond; the translated code walks it depth first in definition order *)
 Example C12_code_variants_nonvacuous :
